@@ -601,7 +601,31 @@ pub fn mig_grid() -> Vec<History> {
                     bids3: sh.1.clone(),
                     bids2: sh.2.clone(),
                 };
-                let mut steps = vec![Step::Migrate { msg: msg.clone() }, Step::Migrate { msg: msg.clone() }];
+                // configuration requests attempted on the not-yet-migrated book (old-format bids are open
+                // orders too), then the migration twice
+                let modify = |ap: Option<Vec<&str>>, br: Option<&str>, ba: Option<&str>, bt: Option<Vec<&str>>, at: Option<Vec<&str>>| ExecuteMsg::ModifyContract {
+                    approvers: ap.map(|l| l.into_iter().map(s).collect()),
+                    executors: None,
+                    ask_fee_rate: None,
+                    ask_fee_account: None,
+                    bid_fee_rate: br.map(s),
+                    bid_fee_account: ba.map(s),
+                    ask_required_attributes: at.map(|l| l.into_iter().map(s).collect()),
+                    bid_required_attributes: bt.map(|l| l.into_iter().map(s).collect()),
+                };
+                let mut steps = vec![];
+                if mi == 0 {
+                    for m in [
+                        modify(None, Some("0.2"), Some("bidfee1"), None, None),
+                        modify(None, None, None, Some(vec![]), None),
+                        modify(Some(vec!["approver2"]), None, None, None, None),
+                        modify(None, None, None, None, Some(vec!["kyc"])),
+                    ] {
+                        steps.push(Step::Try { sender: sc.exec.to_string(), funds: vec![], msg: m });
+                    }
+                }
+                steps.push(Step::Migrate { msg: msg.clone() });
+                steps.push(Step::Migrate { msg: msg.clone() });
                 for (k, a) in &sh.0 {
                     steps.push(Step::Probe { sender: a.owner.to_string(), funds: vec![], msg: ExecuteMsg::CancelAsk { id: k.clone() } });
                     steps.push(Step::Query { msg: QueryMsg::GetAsk { id: k.clone() } });
